@@ -743,6 +743,7 @@ def _put_one_Constant_kind(
         elif value == 'u':
             if lines[ln][col : col + 1] in '\'"':
                 self._put_src(['u'], ln, col, ln, col, False, False)
+                self._fix_joined_alnums(ln, col, lines=lines)  # e.g. `a is not'str'`
 
         else:
             raise ValueError(f"expecting 'u' or None, got {value!r}")
